@@ -2,6 +2,7 @@ package rules
 
 import (
 	"go/token"
+	"go/types"
 
 	"golang.org/x/tools/go/ssa"
 
@@ -102,6 +103,12 @@ func (c *Ctx) up(v ssa.Value) ssa.Value {
 					al, _ = a.X.(*ssa.Alloc)
 				}
 			}
+			if call, ok := arg.(*ssa.Call); ok && al == nil {
+				if res := c.ctorField(call, fa); res != nil {
+					v = res
+					continue
+				}
+			}
 			if al == nil {
 				return p
 			}
@@ -117,6 +124,24 @@ func (c *Ctx) up(v ssa.Value) ssa.Value {
 					}
 				}
 			}
+			if n == 0 {
+				// the struct comes whole from a constructor: the field is what the constructor put there
+				var whole ssa.Value
+				nw := 0
+				for _, ref := range flow.Referrers(al) {
+					if st, ok := ref.(*ssa.Store); ok && st.Addr == ssa.Value(al) {
+						whole = st.Val
+						nw++
+					}
+				}
+				if call, ok := whole.(*ssa.Call); ok && nw == 1 {
+					if res := c.ctorField(call, fa); res != nil {
+						v = res
+						continue
+					}
+				}
+				return p
+			}
 			if n != 1 {
 				return p
 			}
@@ -126,4 +151,126 @@ func (c *Ctx) up(v ssa.Value) ssa.Value {
 		return p
 	}
 	return v
+}
+
+// derivesOnlyFrom: every alternative of v (phi edges, the arguments at every library call site of a parameter,
+// every non-error return of a called helper, the stored field of a struct handed to a helper) is the target
+// value or a constant; saw reports whether the target was among them. Used for "this is the stream the header
+// read reported" (constants stand for the non-multistream branch).
+func (c *Ctx) derivesOnlyFrom(v ssa.Value, isTarget func(ssa.Value) bool, depth int, seen map[ssa.Value]bool) (ok, saw bool) {
+	if v == nil || depth > 10 {
+		return false, false
+	}
+	v = flow.Peel(v)
+	if isTarget(v) {
+		return true, true
+	}
+	if seen[v] {
+		return true, false
+	}
+	seen[v] = true
+	switch x := v.(type) {
+	case *ssa.Const:
+		return true, false
+	case *ssa.Phi:
+		ok = true
+		for _, e := range x.Edges {
+			o, s := c.derivesOnlyFrom(e, isTarget, depth+1, seen)
+			ok, saw = ok && o, saw || s
+		}
+		return ok, saw
+	case *ssa.Extract:
+		call, isCall := x.Tuple.(*ssa.Call)
+		if !isCall {
+			return false, false
+		}
+		return c.resultDerives(call, x.Index, isTarget, depth, seen)
+	case *ssa.Call:
+		return c.resultDerives(x, 0, isTarget, depth, seen)
+	case *ssa.Parameter:
+		sites := c.librarySites(x.Parent())
+		if len(sites) == 0 {
+			return false, false
+		}
+		idx := paramIndex(x.Parent(), x)
+		ok = true
+		for _, cs := range sites {
+			if idx >= len(cs.Common().Args) {
+				return false, false
+			}
+			o, s := c.derivesOnlyFrom(cs.Common().Args[idx], isTarget, depth+1, seen)
+			ok, saw = ok && o, saw || s
+		}
+		return ok, saw
+	case *ssa.UnOp:
+		if u := c.up(x); u != ssa.Value(x) {
+			return c.derivesOnlyFrom(u, isTarget, depth+1, seen)
+		}
+		if al, isAl := x.X.(*ssa.Alloc); isAl && x.Op == token.MUL {
+			ok, n := true, 0
+			for _, ref := range flow.Referrers(al) {
+				if st, isSt := ref.(*ssa.Store); isSt && st.Addr == ssa.Value(al) {
+					n++
+					o, s := c.derivesOnlyFrom(st.Val, isTarget, depth+1, seen)
+					ok, saw = ok && o, saw || s
+				}
+			}
+			return ok && n > 0, saw
+		}
+	}
+	return false, false
+}
+
+func (c *Ctx) resultDerives(call *ssa.Call, idx int, isTarget func(ssa.Value) bool, depth int, seen map[ssa.Value]bool) (ok, saw bool) {
+	g := flow.StaticCallee(call)
+	if g == nil || g.Blocks == nil || !c.P.IsLibrary(g) {
+		return false, false
+	}
+	ok = true
+	n := 0
+	flow.Instrs(g, func(in ssa.Instruction) {
+		ret, isRet := in.(*ssa.Return)
+		if !isRet || idx >= len(ret.Results) {
+			return
+		}
+		if len(ret.Results) > 1 && isErrorType(ret.Results[len(ret.Results)-1].Type()) && !mayReturnNilError(ret) {
+			return // error return: the value is not used by callers that test the error
+		}
+		for _, src := range flow.SpillSources(ret.Results[idx]) {
+			n++
+			o, s := c.derivesOnlyFrom(src, isTarget, depth+1, seen)
+			ok, saw = ok && o, saw || s
+		}
+	})
+	return ok && n > 0, saw
+}
+
+// ctorField: call builds a struct in a library constructor; the field addressed by fa (on a value of that
+// struct type) holds, on every return of the constructor, one of the constructor's parameters: the
+// corresponding argument of call is returned.
+func (c *Ctx) ctorField(call *ssa.Call, fa *ssa.FieldAddr) ssa.Value {
+	g := flow.StaticCallee(call)
+	if g == nil || g.Blocks == nil || !c.P.IsLibrary(g) {
+		return nil
+	}
+	fname := fa.X.Type().Underlying().(*types.Pointer).Elem().Underlying().(*types.Struct).Field(fa.Field).Name()
+	var res ssa.Value
+	rvs := flow.ReturnValues(g, 0)
+	for _, rv := range rvs {
+		fs := structLitFields(rv)
+		fv, has := fs[fname]
+		if !has {
+			return nil
+		}
+		gp, isP := flow.Peel(fv).(*ssa.Parameter)
+		if !isP || gp.Parent() != g {
+			return nil
+		}
+		i := paramIndex(g, gp)
+		if i >= len(call.Call.Args) || (res != nil && res != call.Call.Args[i]) {
+			return nil
+		}
+		res = call.Call.Args[i]
+	}
+	return res
 }
